@@ -490,6 +490,12 @@ def check_decoding(ctx: Ctx, F: IlpFacts, rules: Dict[str, str], result_class: s
     chk("ua-built", ok_ua and len(reset) == 1 and O.body.index(reset[0]) < O.body.index(I), uas[0] if uas else O,
         "each chosen candidate becomes one UnitaryAlignment built from its own fresh slot list",
         "slot list is not reset per candidate or the unitary alignment is built from something else")
+    emits = [x for x in ast.walk(O) if isinstance(x, ast.Call) and isinstance(x.func, ast.Attribute) and x.func.attr == "append" and uas and
+             x.args and norm(x.args[0]) in [norm(a.targets[0]) for a in O.body if isinstance(a, ast.Assign) and a.value is uas[0]]]
+    chk("all-emitted", len(emits) == 1 and cfg.every_iteration_passes(O, {cfg.node_containing(emits[0])}) and
+        not any(isinstance(x, (ast.Break, ast.Return)) for b in O.body for x in ast.walk(b)), emits[0] if emits else O,
+        "every chosen candidate becomes a unitary alignment of the result (no iteration of the decoding loop skips the append)",
+        "some chosen candidates can be skipped by the decoding loop: their units would be missing from the alignment")
     dst = [x for x in O.body if isinstance(x, ast.Assign) and norm(x.targets[0]).endswith(".disorder")]
     chk("ua-disorder", len(dst) == 1 and norm(dst[0].value) == f"{dis}[{aid_}]", dst[0] if dst else O,
         "the unitary alignment carries the (normalised) disorder of its own candidate",
